@@ -192,8 +192,12 @@ macro_rules! inv_unit {
                 }
                 t!(acos); t!(acosh); t!(asin); t!(asinh); t!(atan); t!(atanh);
                 t!(exp); t!(exp2); t!(ln); t!(log2); t!(log10); t!(exp_m1); t!(ln_1p);
-                let b: $V = 2.5;
-                writeln!($cx.out, "inv {} {} log {} {} {} {} {}", <$V as Val>::NAME, $bname, idx, x.hex(), s.hex(), r.log(b).value.hex(), <$V>::log(s, b).hex()).unwrap();
+                // the base is an argument like any other: the common bases exactly, edge values, a random one
+                let bases: [$V; 12] = [2.5, 2.0, 10.0, core::f64::consts::E as $V, 0.5, 1.0, 0.0, -1.0, <$V>::NAN, <$V>::INFINITY, 16.0,
+                    <$V as Fl>::from_bits64(rng.next() >> (64 - (<$V as Fl>::MANT_BITS + <$V as Fl>::EXP_BITS)))];
+                for b in bases {
+                    writeln!($cx.out, "inv {} {} log {} {} {} {} {}", <$V as Val>::NAME, $bname, idx, x.hex(), s.hex(), r.log(b).value.hex(), <$V>::log(s, b).hex()).unwrap();
+                }
             }
         })*
     }};
